@@ -3,6 +3,7 @@ import Femio.Model.Brick
 import Femio.Lemmas.KernelProps
 import Femio.Lemmas.LookupProps
 import Femio.Lemmas.BrickProps
+import Femio.Props.C11History
 import Mathlib.Tactic.NormNum
 /-! # C11 — element areas / volumes / normals are geometric invariants and add up
 
@@ -15,7 +16,8 @@ multiple of the metric, so a statement `K (A·p) = det A · K p` is a statement 
   `C11_radicand_scale` (`s⁴`), `C11_normal_rotates` (`cof A = det A · A`);
 * `C11_*_modes_agree_affine`: all modes agree on affine cells and equal the closed form;
 * `C11_relabel`, `C11_storage_perm`, `C11_storage_perm_mixed` (+ `C11_mixed_counterexample_upstream`);
-* `C11_brick_count`, `C11_brick_positive`, `C11_brick_sum`. -/
+* `C11_brick_count`, `C11_brick_positive`, `C11_brick_sum`;
+* call histories on one object: `Props/C11History.lean` (`C11_hist_*`, imported here). -/
 open V3 Geom
 namespace Femio.C11
 
